@@ -34,10 +34,11 @@ MonInit == [bad |-> <<>>,
 
 HdrVal(r, name) == LET hits == { i \in 1..Len(r.hdrs) : r.hdrs[i][1] = name }
                    IN IF hits = {} THEN <<"absent">> ELSE <<"value", r.hdrs[CHOOSE i \in hits : \A j \in hits : i <= j][2]>>
-\* the matching key of the statement
+\* the matching key of the statement.  Body part: ignored / the non-ignored form fields / the raw body
+FormBranch(r, o) == ~o.ic /\ o.ipay # <<>> /\ r.form # <<>>
+Fields(r, o) == SelectSeq(r.form, LAMBDA p : p[1] \notin ToSet(o.ipay))
 KeyBody(r, o) == IF o.ic THEN <<"ignored">>
-                 ELSE IF o.ipay # <<>> /\ r.form # <<>>
-                      THEN <<"form", r.ftype, SelectSeq(r.form, LAMBDA p : p[1] \notin ToSet(o.ipay))>>
+                 ELSE IF FormBranch(r, o) THEN <<"form", Fields(r, o)>>
                  ELSE <<"raw", r.body>>
 RefKey(r, o) == [method |-> r.method, scheme |-> r.scheme, path |-> r.path,
                  query |-> SelectSeq(r.query, LAMBDA p : p[1] \notin ToSet(o.iparams)),
@@ -45,6 +46,10 @@ RefKey(r, o) == [method |-> r.method, scheme |-> r.scheme, path |-> r.path,
                  port |-> IF o.ip THEN 0 ELSE r.port,
                  body |-> KeyBody(r, o),
                  hdrs |-> [i \in 1..Len(o.uh) |-> HdrVal(r, o.uh[i])]]
+\* RefKey is the coarsest reading (equal non-ignored fields, whatever the form encoding): a recording may only be
+\* served when RefKey is equal.  FineKey also compares the form encoding: a recording MUST be found (and ordered)
+\* when even FineKey is equal.  The two differ only for urlencoded vs multipart forms with equal fields.
+FineKey(r, o) == <<RefKey(r, o), IF FormBranch(r, o) THEN r.ftype ELSE "">>
 \* which component of two keys differs first (signature)
 KeyDiff(a, b) == IF a.method # b.method THEN "method"
                  ELSE IF a.scheme # b.scheme THEN "scheme"
@@ -60,7 +65,11 @@ KeyDiff(a, b) == IF a.method # b.method THEN "method"
 Known(m, id) == id \in 1..Len(m.recs)
 Servable(m, id) == Known(m, id) /\ m.recs[id].http /\ m.recs[id].hasresp
 \* unserved recordings with a response whose key equals the request's, in recording order
-Cand(m, req) == SelectSeq(m.unserved, LAMBDA id : Servable(m, id) /\ RefKey(m.recs[id].req, m.opts) = RefKey(req, m.opts))
+Cand(m, req) == SelectSeq(m.unserved, LAMBDA id : Servable(m, id) /\ FineKey(m.recs[id].req, m.opts) = FineKey(req, m.opts))
+\* a Cand member stands before recording `id` in the recording order of the unserved ones
+Earlier(m, req, id) == LET pos == IndexOf(m.unserved, id)
+                       IN \E i \in 1..(pos - 1) : Servable(m, m.unserved[i])
+                                                   /\ FineKey(m.recs[m.unserved[i]].req, m.opts) = FineKey(req, m.opts)
 NearMiss(m, req) == \E i \in 1..Len(m.unserved) :
                        /\ Servable(m, m.unserved[i])
                        /\ RefKey(m.recs[m.unserved[i]].req, m.opts) # RefKey(req, m.opts)
@@ -77,7 +86,7 @@ ReqBad(m, ev) ==
           ELSE IF ev.served \notin ToSet(m.unserved) THEN <<"C52.served_not_available", Mode(m)>>
           ELSE IF RefKey(m.recs[ev.served].req, m.opts) # RefKey(ev.req, m.opts)
                THEN <<"C52.served_key_mismatch", KeyDiff(RefKey(m.recs[ev.served].req, m.opts), RefKey(ev.req, m.opts))>>
-          ELSE IF ev.served # Head(cand) THEN <<"C52.out_of_order", When(m), Mode(m)>>
+          ELSE IF Earlier(m, ev.req, ev.served) THEN <<"C52.out_of_order", When(m), Mode(m)>>
           ELSE <<>>
      ELSE IF cand # <<>> THEN <<"C52.matched_not_served", ev.out>>
      ELSE IF ev.active /\ ev.out # Expected(m.opts) THEN <<"C52.unmatched_behaviour", Expected(m.opts), ev.out>>
